@@ -74,6 +74,29 @@ class StartTaskHandler(StabilizeHandler[StartTask]):
         """Inner handle logic to be retried."""
 
         def on_task(stage: StageExecution, task_model: TaskExecution) -> None:
+            # Every producer of StartTask (stage planning, the previous task's
+            # completion, ContinueParentStage, recovery) pushes it for a stage
+            # that is RUNNING. If the stage is NOT_STARTED again or already
+            # finished by the time the message arrives, a jump re-armed it (or a
+            # cancel / failure ended it) in between and the message is stale:
+            # starting the task would run it outside its stage, ahead of the
+            # upstream stages the jump is re-running.
+            if stage.status == WorkflowStatus.NOT_STARTED or stage.status.is_complete:
+                logger.debug(
+                    "Ignoring stale StartTask for %s - stage %s is %s",
+                    task_model.name,
+                    stage.name,
+                    stage.status,
+                )
+                if message.message_id:
+                    with self.repository.transaction(self.queue) as txn:
+                        txn.mark_message_processed(
+                            message_id=message.message_id,
+                            handler_type="StartTask",
+                            execution_id=message.execution_id,
+                        )
+                return
+
             # Idempotency check - only start tasks that are NOT_STARTED
             if task_model.status != WorkflowStatus.NOT_STARTED:
                 logger.debug(
